@@ -67,6 +67,47 @@ def topMembers : List Stat → List (Bytes × Loc × Bytes × Loc × Exp)
 
 def blockStats : Block → List Stat | .mk ss _ _ => ss
 
+mutual
+/-- every `name = function … end` (function EXPRESSION, at any depth): the Loc of the target name -/
+def fxExp : Exp → List Loc
+  | .unop _ e _ => fxExp e
+  | .binop _ a b _ => fxExp a ++ fxExp b
+  | .table ks vs _ => fxExps ks ++ fxExps vs
+  | .func f => fxFunc f
+  | .parens e _ => fxExp e
+  | .index p k _ => fxExp p ++ fxExp k
+  | .call p _ a _ => fxExp p ++ fxExps a
+  | _ => []
+def fxExps : List Exp → List Loc
+  | [] => []
+  | e :: r => fxExp e ++ fxExps r
+def fxFunc : FuncBody → List Loc
+  | .mk _ _ _ _ _ b _ => fxBlock b
+def fxBlock : Block → List Loc
+  | .mk ss ret _ => fxStats ss ++ (match ret with | some es => fxExps es | none => [])
+def fxStats : List Stat → List Loc
+  | [] => []
+  | s :: r => fxStat s ++ fxStats r
+def fxBlocks : List Block → List Loc
+  | [] => []
+  | b :: r => fxBlock b ++ fxBlocks r
+def fxStat : Stat → List Loc
+  | .do_ b _ => fxBlock b
+  | .while_ c b _ => fxExp c ++ fxBlock b
+  | .repeat_ b c _ => fxBlock b ++ fxExp c
+  | .if_ cs bs _ => fxExps cs ++ fxBlocks bs
+  | .fornum _ _ i l s b _ => fxExp i ++ fxExp l ++ fxExp s ++ fxBlock b
+  | .forin _ es b _ => fxExps es ++ fxBlock b
+  | .assign vs es _ =>
+    (match vs, es with
+     | [.name _ l], [e] => if isFuncExp e then [l] else []
+     | _, _ => []) ++ fxExps vs ++ fxExps es
+  | .local_ _ es _ => fxExps es
+  | .localfn _ _ f _ => fxFunc f
+  | .callstat e => fxExp e
+  | _ => []
+end
+
 def dot (a b : Bytes) : Bytes := a ++ [46] ++ b
 
 def countName (n : Bytes) (l : List (Bytes × Loc × Option Exp)) : Nat := (l.filter (·.1 == n)).length
@@ -83,9 +124,11 @@ def required (b : Block) : List Req :=
       byAssign := (e.map isFuncExp).getD false, shadowed := lastOf tl n != some l }
   let gw := occs.filter fun o => o.isWrite && o.decl.isNone
   let gnames := (gw.map (·.name)).eraseDups
+  let fx := fxBlock b
   let globals : List Req := gnames.map fun n =>
     let ws := gw.filter (·.name == n)
-    { qname := n, cls := "global", locs := ws.map (·.loc), fn := ws.any (·.init == "func") }
+    { qname := n, cls := "global", locs := ws.map (·.loc), fn := ws.any (·.init == "func"),
+      byAssign := ws.all (fun o => fx.contains o.loc) }
   let members : List Req := (topMembers (blockStats b)).filterMap fun (t, tloc, k, kl, v) =>
     if !isFunc v then none else
     -- the base resolves to a top-level local, to a global, or (declaring occurrence) is that local itself
